@@ -17,6 +17,8 @@ import (
 	"runtime"
 	"sort"
 	"sync"
+	"sync/atomic"
+	"time"
 
 	"github.com/pinealctx/neptune/ulog"
 
@@ -75,23 +77,44 @@ func randPlan(rng *rand.Rand, nk, n int) []step {
 		if rng.Intn(2) == 0 { // same-key operations pile up behind a gated one
 			k = hot
 		}
-		out = append(out, step{Op: opNames[rng.Intn(len(opNames))], K: k, F: pattern(rng, failPct, 2), G: pattern(rng, gatePct, 3)})
+		g := pattern(rng, gatePct, 3)
+		if rng.Intn(25) == 0 {
+			g = append(g, 9) // context already ended
+		}
+		if rng.Intn(12) == 0 {
+			g = append(g, 8) // the first store callback reads another key through the group
+		}
+		out = append(out, step{Op: opNames[rng.Intn(len(opNames))], K: k, F: pattern(rng, failPct, 2), G: g})
 	}
 	return out
 }
 
 func randCfg(rng *rand.Rand, src string) config {
 	c := config{Src: src}
-	c.NW = []int{1, 2, 3, 5, 8, 0}[rng.Intn(6)] // 0 = the default (127)
+	c.NW = []int{1, 2, 3, 5, 8, 0, 1, 2, 3, 5, 8, 300}[rng.Intn(12)] // 0 = the default (127)
 	c.Facade = []string{"map", "lru", "map", "lru", "bmap", "blru"}[rng.Intn(6)]
-	c.Cap = []int{1, 2, 3, 8, 100}[rng.Intn(5)]
-	c.Deep = []int{1, 2, 4, 0, 0}[rng.Intn(5)] // 0 = the default (8192)
+	c.Cap = []int{0, 1, 2, 3, 8, 100}[rng.Intn(6)] // 0: nothing (but rows of size 0) stays cached
+	c.Deep = []int{1, 2, 4, 0, -3, defaultDeep, defaultDeep}[rng.Intn(7)] // 0, negative: unbounded
 	c.NK = rng.Intn(6) + 1
 	c.KT = keyTypes[rng.Intn(len(keyTypes))]
 	if rng.Intn(8) == 0 {
 		c.KT = "edge"
 	}
 	c.Sized = rng.Intn(3) == 0
+	c.Ptr = rng.Intn(3) == 0
+	c.Late = c.Ptr && rng.Intn(2) == 0
+	c.StopAt = -1
+	switch rng.Intn(8) { // life-cycle orders: calls before Start, Stop with work accepted, Stop before Start
+	case 0:
+		c.StartAt = 1 + rng.Intn(6)
+	case 1:
+		c.StopAt = 3 + rng.Intn(25)
+	case 2:
+		c.StartAt = 2 + rng.Intn(6)
+		c.StopAt = c.StartAt - rng.Intn(2) // Stop just before / together with Start
+	case 3:
+		c.StopAt = rng.Intn(2) // Stop right after Start
+	}
 	if collide[c.KT] {
 		if c.NK < 2 {
 			c.NK = 2 + rng.Intn(5)
@@ -104,17 +127,35 @@ func randCfg(rng *rand.Rand, src string) config {
 }
 
 // stress: free-running callers, no gates; the log order of sub/ret is only real-time order.
-func runStress(w *tr.W, rng *rand.Rand, cfg config, threads, per int) {
+// stressMode: life-cycle events that race the callers of a free-running history.
+type stressMode struct {
+	barrier   bool // cold start: every caller makes its first call at the same moment (spin barrier)
+	lateStart bool // Start is called by one more goroutine released by the same barrier
+	stopRace  bool // Stop is called by one more goroutine somewhere in the traffic
+}
+
+func runStress(w *tr.W, rng *rand.Rand, cfg config, threads, per int, m stressMode) {
 	cfg.Serial = false
 	wd := newWorld(cfg)
 	wd.emitReset(w)
+	if !m.lateStart {
+		wd.start(w)
+	}
 	var wg sync.WaitGroup
+	var gate int32 // spin barrier
+	wait := func() {
+		if m.barrier {
+			for atomic.LoadInt32(&gate) == 0 {
+			}
+		}
+	}
 	failPct := []int{0, 10, 30}[rng.Intn(3)]
 	for t := 0; t < threads; t++ {
 		wg.Add(1)
 		r := rand.New(rand.NewSource(rng.Int63()))
 		go func() {
 			defer wg.Done()
+			wait()
 			for i := 0; i < per; i++ {
 				o, body := wd.submit2(opNames[r.Intn(len(opNames))], r.Intn(cfg.NK)+1, pattern(r, failPct, 2), nil)
 				if r.Intn(10) == 0 { // the caller's context ends at some point of the call
@@ -133,7 +174,50 @@ func runStress(w *tr.W, rng *rand.Rand, cfg config, threads, per int) {
 			}
 		}()
 	}
-	wg.Wait()
+	if m.lateStart {
+		wg.Add(1)
+		go func() {
+			defer wg.Done()
+			wait()
+			wd.start(w)
+		}()
+	}
+	if m.stopRace {
+		wg.Add(1)
+		n := rng.Intn(per*threads + 1)
+		go func() {
+			defer wg.Done()
+			wait()
+			for j := 0; j < n; j++ {
+				runtime.Gosched()
+			}
+			wd.stop(w)
+		}()
+	}
+	atomic.StoreInt32(&gate, 1)
+	// watchdog: callers that are parked for good are an observation (the history ends with calls that
+	// never returned), not a reason to hang
+	done := make(chan struct{})
+	go func() { wg.Wait(); close(done) }()
+	for waiting := true; waiting; {
+		select {
+		case <-done:
+			waiting = false
+		case <-time.After(300 * time.Millisecond):
+			if err := wd.x.Settle(); err != nil {
+				wd.giveUp(w, err)
+			}
+			select {
+			case <-done:
+				waiting = false
+			default: // quiescent, and somebody has not returned
+				wd.over = true
+				wd.observe(w)
+				w.Emit(tr.E{"ev": "end"})
+				return
+			}
+		}
+	}
 	wd.settle(w)
 	wd.finish(w)
 }
@@ -145,11 +229,14 @@ func main() {
 	seed := flag.Int64("seed", 1, "seed")
 	nrand := flag.Int("rand", 100, "random plans")
 	nstress := flag.Int("nstress", 10, "stress runs")
+	ncold := flag.Int("ncold", 40, "cold-start rounds")
 	flag.Parse()
 	ulog.SetLogLevelStr("error")
 	rng := rand.New(rand.NewSource(*seed))
 
 	w := tr.Create(*out)
+	sw := tr.Create(*stress)
+	writers = []*tr.W{w, sw}
 	if *plans != "" {
 		files, _ := filepath.Glob(filepath.Join(*plans, "*.ndjson"))
 		sort.Strings(files)
@@ -158,10 +245,17 @@ func main() {
 			if len(p) == 0 || p[0].Op != "init" {
 				tr.Fatal("plan %s does not start with init", f)
 			}
-			cfg := config{NW: p[0].NW, Facade: "map", Cap: []int{1, 2, 3}[i%3], NK: 3, KT: keyTypes[i%len(keyTypes)],
+			cfg := config{NW: p[0].NW, Facade: "map", Cap: []int{1, 2, 3, 0}[i%4], NK: 3, KT: keyTypes[i%len(keyTypes)], Deep: defaultDeep,
 				Sized: i%5 == 0, Src: "plan:" + filepath.Base(f)}
 			if p[0].L {
 				cfg.Facade = "lru"
+			}
+			cfg.StopAt = -1
+			switch i % 9 {
+			case 4:
+				cfg.StartAt = 2 + i%7
+			case 7:
+				cfg.StopAt = 6 + i%29
 			}
 			if collide[cfg.KT] && i%4 >= 2 { // built-in facades for half of the colliding-key plans
 				cfg.Facade = map[string]string{"map": "bmap", "lru": "blru"}[cfg.Facade]
@@ -175,13 +269,22 @@ func main() {
 		runSteps(w, cfg, randPlan(rng, cfg.NK, 20+rng.Intn(40)))
 	}
 	w.Close()
-	sw := tr.Create(*stress)
 	for i := 0; i < *nstress; i++ {
 		cfg := randCfg(rng, "stress")
 		if cfg.KT == "edge" {
 			cfg.KT = "int" // a caller-side panic would end a free-running caller; edge keys are step-mode only
 		}
-		runStress(sw, rng, cfg, 2+rng.Intn(5), 30+rng.Intn(40))
+		runStress(sw, rng, cfg, 2+rng.Intn(5), 30+rng.Intn(40), stressMode{stopRace: i%5 == 4})
+	}
+	// cold-start rounds: a fresh group first used by several goroutines at the same moment, with Start
+	// (and sometimes Stop) racing them; many cheap rounds
+	for i := 0; i < *ncold; i++ {
+		cfg := randCfg(rng, "cold")
+		if cfg.KT == "edge" {
+			cfg.KT = "int"
+		}
+		runStress(sw, rng, cfg, 2+rng.Intn(4), 1+rng.Intn(3),
+			stressMode{barrier: true, lateStart: i%2 == 0, stopRace: i%7 == 3})
 	}
 	sw.Close()
 	fmt.Printf("step_events=%d stress_events=%d\n", w.N(), sw.N())
